@@ -171,19 +171,35 @@ class Driver(object):
         return r.rstrip('\n')
 
     def ask_many(self, lines):
-        """pipelined: write all, then read all (in chunks to avoid pipe deadlock)"""
+        """pipelined: a reader thread drains the replies while the requests are written (no pipe deadlock)"""
+        import threading
+        n = len(lines)
         res = []
-        CH = 200
-        for i in range(0, len(lines), CH):
-            chunk = lines[i:i + CH]
-            self.p.stdin.write('\n'.join(chunk) + '\n')
+        err = []
+
+        def reader():
+            try:
+                for _ in range(n):
+                    r = self.p.stdout.readline()
+                    if not r:
+                        err.append('driver %s died' % self.name)
+                        return
+                    res.append(r.rstrip('\n'))
+            except Exception as e:      # pragma: no cover
+                err.append(repr(e))
+        th = threading.Thread(target=reader)
+        th.start()
+        try:
+            for l in lines:
+                assert '\n' not in l
+                self.p.stdin.write(l + '\n')
             self.p.stdin.flush()
-            for _ in chunk:
-                r = self.p.stdout.readline()
-                if not r:
-                    raise Infra('driver %s died' % self.name)
-                res.append(r.rstrip('\n'))
-        self.n += len(lines)
+        except BrokenPipeError:
+            err.append('driver %s closed its input' % self.name)
+        th.join()
+        if err or len(res) != n:
+            raise Infra('; '.join(err) or 'driver %s: short reply' % self.name)
+        self.n += n
         return res
 
     def close(self):
